@@ -239,6 +239,7 @@ def run_scenario(scn, *, bus="sync", chooser=None, seed=0, max_steps=None, use_s
 
     async def main(loop):
         ctx["loop"] = loop
+        info["loop"] = loop
         start_real = loop.now_ns()
         info["start_real"] = start_real
         if bus == "sync":
